@@ -536,6 +536,9 @@ class Ctx:
     symbolic = True
 
     def __init__(self, timeout_ms=30000, max_paths=2_000_000, record_queries=0, seed=0, prefix=()):
+        self.focus = None          # property id under check (labels of other properties do not end a path)
+        self.other_violations = []
+        self.other_hit = False
         self.max_degree = None     # polynomials above this degree are forked on without asking the solver
         self.blind_forks = 0
         self.split = tuple(prefix) if prefix else None   # (i, N, depth)
@@ -1055,6 +1058,12 @@ class Ctx:
         if known_key is not None:
             self.known_hits.append(v)
             return  # a known finding does not end the path
+        if self.focus and not label.startswith(self.focus + ":"):
+            # an assertion that belongs to another property of a shared harness: recorded, the path goes on so that the
+            # consequences for the property under check can still be observed
+            self.other_violations.append(v)
+            self.other_hit = True
+            return
         self.violations.append(v)
         raise _Stop()
 
@@ -1067,6 +1076,7 @@ class Ctx:
         self.known = {}
         self.path_choices = []
         self.path_forked = False
+        self.other_hit = False
         self.blind_atoms = []
         self.fork_outcomes = []
         self.varcount = 0
@@ -1159,7 +1169,7 @@ class Ctx:
             "checks": self.checks,
             "covers": dict(self.covers),
             "notes": dict(self.notes),
-            "violations": [v.to_json() for v in self.violations],
+            "violations": [v.to_json() for v in self.violations] + [v.to_json() for v in self.other_violations[:20]],
             "known_hits": [v.to_json() for v in self.known_hits[:50]],
             "n_known_hits": len(self.known_hits),
             "samples": self.samples,
@@ -1367,6 +1377,9 @@ class ConcreteCtx:
                 self.known_hits.append(v)
                 return False
             self.violations.append(v)
+            if getattr(self, "focus", None) and not label.startswith(self.focus + ":"):
+                self.other_hit = True
+                return False
             raise _Stop()
         return True
 
